@@ -2,6 +2,7 @@ package main
 
 import (
 	"crypto/ecdsa"
+	"fmt"
 	"math"
 	"math/big"
 	"math/rand"
@@ -9,7 +10,9 @@ import (
 	"github.com/golang/protobuf/proto"
 	"github.com/idena-network/idena-go/blockchain/attachments"
 	"github.com/idena-network/idena-go/blockchain/types"
+	"github.com/idena-network/idena-go/blockchain/validation"
 	"github.com/idena-network/idena-go/common"
+	"github.com/idena-network/idena-go/core/state"
 	"github.com/idena-network/idena-go/crypto"
 	"github.com/idena-network/idena-go/crypto/ecies"
 	"github.com/idena-network/idena-go/ipfs"
@@ -77,10 +80,23 @@ func (r *rig) setup() {
 		nonce = 1
 	}
 	t.pooledTx = r.w.Tx(sim.TxSpec{From: from, To: &to, Type: types.SendTx, Amount: dna(1), MaxFee: dna(100), Nonce: nonce, Epoch: r.n.App.State.Epoch()})
-	mustAdd(r.n, t.pooledTx)
-	t.txs = r.propose()
-	if len(t.txs.Body.Transactions) != 1 {
-		panic("rig setup: template proposal with a transaction has none")
+	if err := r.n.Pool.AddExternalTxs(validation.InboundTx, t.pooledTx); err == nil {
+		t.txs = r.propose()
+		if len(t.txs.Body.Transactions) != 1 {
+			panic("rig setup: template proposal with a transaction has none")
+		}
+	} else {
+		// during the flip lottery and the short session the pool takes ceremonial transactions only: the block
+		// with a transaction is then assembled by hand (its roots are those of the empty block)
+		if p := r.n.App.State.ValidationPeriod(); p != state.FlipLotteryPeriod && p != state.ShortSessionPeriod {
+			panic(fmt.Sprintf("rig setup: pool refused the template transaction: %v", err))
+		}
+		enc, _ := t.empty.ToBytes()
+		t.txs = new(types.BlockProposal)
+		if err := t.txs.FromBytes(enc); err != nil {
+			panic(err)
+		}
+		r.setBody(t.txs.Block, []*types.Transaction{t.pooledTx})
 	}
 	t.emptyBlk = r.n.Chain.GenerateEmptyBlock()
 	if r.class == "empty" {
@@ -310,8 +326,8 @@ func (r *rig) applyDevs(rnd *rand.Rand, b *types.Block, devs [][2]string) {
 				h.ProposerPubKey = crypto.FromECDSAPub(&r.key(kStranger).PublicKey)
 			case "seedproof=empty":
 				h.SeedProof = nil
-			case "seedproof=garbage":
-				h.SeedProof = rbytes(rnd, 81)
+			case "seedproof=garbage": // right length (64+65), wrong content
+				h.SeedProof = rbytes(rnd, 129)
 			case "seed=wrong":
 				h.BlockSeed = types.BytesToSeed(rbytes(rnd, 32))
 			case "fee=nil":
@@ -459,7 +475,7 @@ func (r *rig) validPayload(rnd *rand.Rand, typ uint16, to *common.Address) []byt
 			k, _ := crypto.GenerateKey()
 			longKey = ecies.ImportECDSA(k)
 		}
-		return attachments.CreateLongAnswerAttachment(rbytes(rnd, 8), rbytes(rnd, 81), rbytes(rnd, 16), longKey)
+		return attachments.CreateLongAnswerAttachment(rbytes(rnd, 8), rbytes(rnd, 129), rbytes(rnd, 16), longKey)
 	case types.EvidenceTx:
 		return rbytes(rnd, 8)
 	case types.OnlineStatusTx:
